@@ -3,19 +3,21 @@ import refs_cases
 
 ID = "C08"
 PROPERTIES_FILE = "Properties/C08.v"
-COQ_TARGETS = ["Properties/C08.vo", "Refs/Cases.vo", "Refs/FenceProofs.vo"]
+COQ_TARGETS = ["Properties/C08.vo", "Refs/Cases.vo", "Refs/RefStep.vo", "Refs/FenceProofs.vo"]
 LEVEL = "proof"
 TECHNIQUE = ("Coq theorems (induction over all request histories) over a hand-written sequential Gallina model of the path tree "
              "(childNodes/childRefs/childRefNames/deleted, renameChildTo, notifyNameChange, markChildDeleted) composed with a path-addressed "
              "backend model (PathFS); model and backend twin tied to the code by a differential against the real Server.Handle")
 LEVEL_TEXT = ("Proved in Coq for every backend and state: fencing - a request through a fid whose path node is marked deleted is refused by the guard "
               "(EINVAL; ENOENT for a walk to a child) with no backend call in the handler (8 single-fid request kinds, child walks, Tlink's guard); "
-              "markChildDeleted leaves the name without a path node and a later binding gets a fresh non-deleted node; the refs at a moved entry are "
-              "told their new parent File and name. NOT proved in Coq (C08_tree_inv, C08_coherent, C08_notified beyond that): covered by the "
-              "differential only - every run replays generated create/mkdir/walk/clone/rename/renameat/unlinkat/remove/clunk histories (depth <= 4, "
-              "many fids on equal and nested paths, renames over existing targets, subtree moves, re-created names) on the real server against the Go "
-              "twin of PathFS, asks GetAttr through every bound fid after each change (inode id must be the one the fid was bound to), checks that "
-              "fenced requests reach no backend call, and compares replies, call logs and a dump of the server's path tree (childRefs vs childRefNames) with the model.")
+              "markChildDeleted marks EVERY path node at or below the victim (no assumption on the shape of the node graph) so every fidRef there is "
+              "fenced, leaves the name without a path node, and a later binding gets a fresh non-deleted node; an xattr fid cannot be cloned; the "
+              "refs at a moved entry are told their new parent File and name. NOT proved in Coq (C08_tree_inv, C08_coherent, C08_notified beyond "
+              "that): covered by the differential only - every run replays generated create/mkdir/walk/clone/rename/renameat/unlinkat/remove/clunk "
+              "histories (depth <= 4, many fids on equal and nested paths, renames over existing targets, subtree moves, refused renames, re-created "
+              "names) on the real server against the Go twin of PathFS, asks GetAttr through every bound fid after each change (inode id must be the "
+              "one the fid was bound to), checks that fenced requests reach no backend call, runs a gated unlink-vs-walk scenario, and compares "
+              "replies, call logs and a dump of the server's path tree (childRefs vs childRefNames) with the model.")
 LEVEL_NOTE = ("Sequential model; the backend is PathFS (assumption B3) and the server its only writer (B4). Coherence is proved for the "
               "model+PathFS composition; the model is tied to the Go code by the differential only.")
 DESIGN_REF = "6/C08"
